@@ -147,6 +147,20 @@ def purity_check(call) -> Optional[dict]:
         if isinstance(res, tuple):
             return [dump_arg(x) if not isinstance(x, (list, type(None))) else x for x in res]
         return dump_arg(res) if hasattr(res, "model_dump") else res
+    # what the dispatcher does before every call: build the state object from the store's own entities; pydantic
+    # validators of the state class run there, on those very entity objects
+    st = args[-1]
+    if hasattr(st, "model_fields") and hasattr(type(st), "model_fields"):
+        try:
+            ents = {k: getattr(st, k) for k in type(st).model_fields}
+            ent_before = {k: dump_arg(v) for k, v in ents.items()}
+            type(st)(**ents)
+            changed = [k for k, v in ents.items() if dump_arg(v) != ent_before[k]]
+            if changed:
+                return {"kind": "state-construction-mutates-entities", "entities": changed,
+                        "before": {k: ent_before[k] for k in changed}, "after": {k: dump_arg(ents[k]) for k in changed}}
+        except Exception:  # noqa: BLE001  (a state that cannot be rebuilt is not this check's business)
+            pass
     try:
         r1 = norm(fn(*args))
         mid = [dump_arg(a) for a in args]
@@ -162,6 +176,15 @@ def purity_check(call) -> Optional[dict]:
         return {"kind": "component-mutated"}
     if canon_safe(r1) != canon_safe(r2) or canon_safe(r1) != canon_safe(r3):
         return {"kind": "not-deterministic", "first": r1, "second": r2, "on_copy": r3}
+    # the same call on a PRISTINE component rebuilt from the component's own description: a component that keeps
+    # something between calls outside its declared fields (a private cache) answers differently from a new one
+    try:
+        pristine = type(owner).model_validate(owner_before)
+        r4 = norm(getattr(pristine, method)(*copy.deepcopy(clone)))
+    except Exception:  # noqa: BLE001  (a component that cannot be rebuilt from its dump: not this check's business)
+        return None
+    if canon_safe(r1) != canon_safe(r4):
+        return {"kind": "depends-on-earlier-calls", "this_component": r1, "pristine_component": r4}
     return None
 
 
